@@ -32,15 +32,41 @@ payload that happened to sit there: it is decided by two fixed probe payloads
 (`<zq17 zq17=1>`, inert inside a quoted attribute value, and `" zq17="1`, inert
 in a text position) put into every slot of that kind.  For `render-raises` on
 the benign build the mechanism is the greedily minimised set of option names.
+
+Histories (14 % of the cases, see the section "Histories"): live interactive
+controls and live values go through a short sequence of renderings, public
+update methods (scripts captured with HtmlControl.track_scripts()) and
+Html.escape calls in which the same payload texts recur, so that state kept
+between calls (caches, shared parts, members synchronised by updates) is
+exercised in both orders.  Every rendering is judged as above.  The scripts of
+an update are judged against the scripts of the twin history:
+
+  script-malformed     a script of the benign history does not tokenize
+  script-breakout      the executed code (everything outside string literals)
+                       differs from the twin's, or only the hostile script
+                       fails to tokenize
+  script-text-differs  a string literal does not stand for the twin's literal
+                       with the payloads substituted (the text shown after the
+                       update is not the text given)
+
+and the HTML a script inserts (innerHTML / insertAdjacentHTML) is a rendering.
+Mechanism of a history finding: if it persists on new objects built from the
+reference description with texts new to the process, the position kind of a
+single rendering, or the update method (`Label.update(text)`, `Tooltip.update`,
+`TabControl.append`, `ProgressBar.update`, ...); otherwise
+`history:<render|update>-after-<update|render|none>`.
 """
+import copy
 import html
 import itertools
 import json
+import re
 import traceback
 
 import pyglove as pg
 from pgverif import models as M
 from pgverif.monitors import htmlcheck as HC
+from pgverif.monitors import jscheck as JS
 
 Html = pg.Html
 C = pg.views.html.controls
@@ -49,21 +75,36 @@ TIERS = {
     'quick': dict(shards=8, cases=500),
     'thorough': dict(shards=16, cases=3000),
 }
-RULE = ('case = one description (60 % nested Dict/List/tuple/Object/Ref/Diff/'
+RULE = ('case = one description (52 % nested Dict/List/tuple/Object/Ref/Diff/'
         'contextual value rendered by the tree view under a random option set '
-        'drawn from all render arguments, through one of 5 entry points; 28 % a '
+        'drawn from all render arguments, through one of 5 entry points; 24 % a '
         'control tree of Label/Badge/LabelGroup/Tooltip/TabControl/ProgressBar; '
-        '12 % a pg.Html.element/escape composition) with 1-25 payload slots; the '
+        '10 % a pg.Html.element/escape composition) with 1-25 payload slots; the '
         'hostile and the twin build are rendered under the same options and '
         'compared (plus one rendering per payload kind when they differ). '
         'Non-trivial = at least 3 payload slots of at least 2 kinds were '
         'rendered and the twin comparison, the presence check and the '
         'unchanged-value check were all evaluated; distinct by (description '
-        'shape with payload template ids, option set, entry point).')
+        'shape with payload template ids, option set, entry point).  14 % of '
+        'the cases are histories in one process: 1-2 live interactive controls '
+        'and live values, 4-9 steps drawn from {render a control, render a '
+        'value under a new option set, one public update method (Label/Badge.'
+        'update, Tooltip.update, TabControl.append/insert/extend/select, '
+        'ProgressBar.update, SubProgress.update/increment, add_style) under '
+        'HtmlControl.track_scripts(), Html.escape in text / JavaScript mode}; a '
+        'new payload slot repeats the text of an earlier slot with probability '
+        '1/2; every step runs with all texts hostile and with all texts twin '
+        'and the documents / scripts are compared.  A history is non-trivial '
+        'if at least one update script and two renderings were checked and an '
+        'update and a rendering (either order) used the same text.')
 REQUIRED_COUNTERS = ['strict_parses', 'twin_comparisons', 'canary_checks',
                      'presence_tokens_checked', 'unchanged_value_checks',
                      'tree_cases', 'control_cases', 'api_cases',
-                     'hostile_renderings_structurally_clean']
+                     'hostile_renderings_structurally_clean',
+                     'history_cases', 'update_scripts_checked',
+                     'script_html_fragments_checked',
+                     'render_after_update_shared_text',
+                     'update_after_render_shared_text']
 ASSUMPTIONS = [
     'html.parser (CPython 3.12) tokenizes like a browser for the constructs the library emits; '
     'the strict rules (explicit end tags, attribute grammar, no raw <) are stronger than HTML5 parsing',
@@ -74,6 +115,14 @@ ASSUMPTIONS = [
     'the options do not filter (no callable include/exclude, root-level key lists modelled), and only on '
     'renderings without structural findings; either repr(s) or s is accepted for a string leaf',
     'option callables depend on path shape and value types only, so they decide identically for the twin',
+    'update scripts are those recorded by HtmlControl.track_scripts() (the code handed to the notebook); they '
+    'contain string literals in quotes only (no comments, regular expressions, template literals), tokenized '
+    'per ECMAScript (raw LF/CR ends a literal)',
+    'updates are only called where the contract allows them (interactive controls, existing tabs, total not '
+    'set twice); css classes, styles, tab names and pg.Html arguments of updates are configuration/markup '
+    'and benign; texts, tooltips, links and the labels/contents of new tabs are data',
+    'the texts of a history are unique to its case (prefix h<case>), so a history does not depend on the '
+    'cases run before it in the shard and replays alone',
 ]
 
 CANARY = 'zq17'
@@ -121,30 +170,66 @@ REPR_TEMPLATES = [t for t in TEMPLATES if '\n' not in t[1]]
 assert all(not set('.[]') & set(t[1]) for t in KEY_TEMPLATES)
 
 
-class Slots:
-  """Payload slots of one case."""
+TPL = {tid: tpl for tid, tpl, _ in TEMPLATES}
 
-  def __init__(self):
+
+class Slots:
+  """Payload slots of one case.
+
+  Histories set `share_p`: a new slot then repeats, with that probability, the
+  text of an earlier slot (same text id, template and padding) whatever its
+  kind, so that one text travels through several positions and operations.
+  `prefix` makes the texts of a history unique in the process.
+  """
+
+  def __init__(self, prefix=''):
     self.items = []     # [(kind, template id, hostile text)]
     self.pads = []
+    self.textids = []   # slots with the same text id carry the same text
     self.probe = {}     # kind -> probe template replacing every payload of it
+    self.prefix = prefix
+    self.share_p = 0.0
+    self.html_objs = None   # histories: {(mode, markup): pg.Html} shared objects
 
   def new(self, rng, kind, templates=None, pad=0):
+    if self.share_p and self.items and rng.random() < self.share_p:
+      allowed = {t[0] for t in (templates or TEMPLATES)}
+      cands = [j for j, (_, tid, _) in enumerate(self.items) if tid in allowed]
+      if cands:
+        j = rng.choice(cands)
+        self.items.append((kind, self.items[j][1], self.items[j][2]))
+        self.pads.append(self.pads[j])
+        self.textids.append(self.textids[j])
+        return len(self.items) - 1
     tid, tpl, _ = rng.choice(templates or TEMPLATES)
     i = len(self.items)
-    text = tpl.replace('{t}', f'p{i}x') + ' pad' * pad
+    text = tpl.replace('{t}', f'{self.prefix}p{i}x') + ' pad' * pad
     self.items.append((kind, tid, text))
     self.pads.append(pad)
+    self.textids.append(i)
     return i
 
   def text(self, i, mode):
     kind, _, t = self.items[i]
     if kind in self.probe:
-      t = self.probe[kind].replace('{t}', f'p{i}x') + ' pad' * self.pads[i]
+      t = (self.probe[kind].replace('{t}', f'{self.prefix}p{self.textids[i]}x')
+           + ' pad' * self.pads[i])
     return t if kind in mode else M.html_twin(t)
 
   def kinds(self):
     return {k for k, _, _ in self.items}
+
+  def refreshed(self, prefix):
+    """The same slots (kinds, templates, sharing) with texts never used before."""
+    out = Slots(prefix)
+    for (kind, tid, _), pad, textid in zip(self.items, self.pads, self.textids):
+      out.items.append((kind, tid, TPL[tid].replace('{t}', f'{prefix}p{textid}x')
+                        + ' pad' * pad))
+      out.pads.append(pad)
+      out.textids.append(textid)
+    if self.html_objs is not None:
+      out.html_objs = {}
+    return out
 
 
 # ----------------------------------------------------------------------------
@@ -164,10 +249,16 @@ class Gen:
     # remaining positions without the (costly) attribution of key findings.
     self.key_payloads = rng.random() < 0.4
 
-  def keyref(self, key_kind):
+  def keyref(self, key_kind, siblings=()):
     r = self.rng.random()
     if self.key_payloads and r < 0.6:
-      return ['slot', self.S.new(self.rng, key_kind, KEY_TEMPLATES)]
+      k = ['slot', self.S.new(self.rng, key_kind, KEY_TEMPLATES)]
+      # Histories share texts between slots: no two keys of one dict with the
+      # same text (the dict would silently keep one of them).
+      tid = self.S.textids[k[1]]
+      if not any(x[0][0] == 'slot' and self.S.textids[x[0][1]] == tid
+                 for x in siblings):
+        return k
     self.n += 1
     return ['plain', f'k{self.n}']
 
@@ -197,7 +288,7 @@ class Gen:
     if r < 0.34:
       items = []
       for _ in range(kids):
-        k = self.keyref(key_kind)
+        k = self.keyref(key_kind, items)
         items.append([k, self.value(depth + 1, path + [k], key_kind)])
       self.paths.append(path)
       return ['PD' if plain_ok and rng.random() < 0.2 else 'D', items]
@@ -223,7 +314,7 @@ class Gen:
       self.class_kinds.add('doc')
       items = []
       for _ in range(kids):
-        k = self.keyref(key_kind)
+        k = self.keyref(key_kind, items)
         items.append([k, self.value(depth + 1, path + [k])])
       self.paths.append(path)
       return ['Dyn', items]
@@ -260,7 +351,9 @@ class Gen:
       if left[0] in ('D', 'L'):
         break
     else:
-      left = ['D', [[self.keyref('diff-key'), self.leaf()] for _ in range(2)]]
+      left = ['D', []]
+      for _ in range(2):
+        left[1].append([self.keyref('diff-key', left[1]), self.leaf()])
 
     def edit(d):
       if d[0] == 'D':
@@ -271,7 +364,7 @@ class Gen:
             continue
           items.append([k, edit(v) if r < 0.6 else v])
         if rng.random() < 0.4:
-          items.append([self.keyref('diff-key'), self.leaf()])
+          items.append([self.keyref('diff-key', d[1]), self.leaf()])
         return ['D', items]
       if d[0] == 'L':
         out = [edit(v) if rng.random() < 0.5 else v for v in d[1]]
@@ -603,6 +696,25 @@ def gen_label(rng, S, cls=None):
   return [cls or rng.choice(['Label', 'Label', 'Badge']), d]
 
 
+def gen_tab(rng, S, depth=0):
+  t = {'label': (gen_label(rng, S, 'Label') if rng.random() < 0.6
+                 else ['str', _textref(rng, S, 'Label.text', False)])}
+  rc = rng.random()
+  if rc < 0.35:
+    g = Gen(rng, S)
+    t['content'] = ['value', g.value(1, [])]
+    t['class_kinds'] = sorted(g.class_kinds)
+  elif rc < 0.7:
+    t['content'] = ['control', gen_control(rng, S, depth + 1)]
+  else:
+    t['content'] = ['html', '<p>tab <b>content</b></p>']
+  if rng.random() < 0.3:
+    t['css_classes'] = ['tc']
+  if rng.random() < 0.3:
+    t['name'] = 'tabname'
+  return t
+
+
 def gen_control(rng, S, depth=0):
   r = rng.random()
   if r < 0.3 or depth >= 2:
@@ -620,24 +732,7 @@ def gen_control(rng, S, depth=0):
     return ['Tooltip', d]
   if r < 0.8:
     d = _common(rng)
-    tabs = []
-    for _ in range(rng.randint(0, 3)):
-      t = {'label': (gen_label(rng, S, 'Label') if rng.random() < 0.6
-                     else ['str', _textref(rng, S, 'Label.text', False)])}
-      rc = rng.random()
-      if rc < 0.35:
-        g = Gen(rng, S)
-        t['content'] = ['value', g.value(1, [])]
-        t['class_kinds'] = sorted(g.class_kinds)
-      elif rc < 0.7:
-        t['content'] = ['control', gen_control(rng, S, depth + 1)]
-      else:
-        t['content'] = ['html', '<p>tab <b>content</b></p>']
-      if rng.random() < 0.3:
-        t['css_classes'] = ['tc']
-      if rng.random() < 0.3:
-        t['name'] = 'tabname'
-      tabs.append(t)
+    tabs = [gen_tab(rng, S, depth) for _ in range(rng.randint(0, 3))]
     d['tabs'] = tabs
     if tabs:
       d['selected'] = rng.randrange(len(tabs))
@@ -656,8 +751,34 @@ def _textval(ref, S, mode):
   if ref[0] == 'slot':
     return S.text(ref[1], mode)
   if ref[0] == 'html':
-    return Html(ref[1])
+    if S.html_objs is None:
+      return Html(ref[1])
+    # Histories: one pg.Html object per world and markup, used by every
+    # control / update that refers to it (markup by contract, shared object).
+    return S.html_objs.setdefault((mode, ref[1]), Html(ref[1]))
   return ref[1]
+
+
+def build_tab(t, S, mode):
+  lab = (_textval(t['label'][1], S, mode) if t['label'][0] == 'str'
+         else build_control(t['label'], S, mode))
+  c = t['content']
+  if c[0] == 'value':
+    content = build(c[1], S, mode)
+    # pg.Html.write() *calls* a callable (documented writable type), so a
+    # functor object (also behind a pg.Ref, which attribute access
+    # dereferences) is not a tab content that would be rendered.
+    if (not isinstance(content, pg.Symbolic) or callable(content)
+        or isinstance(content, pg.Ref)):
+      content = pg.Dict(v=content)
+  elif c[0] == 'control':
+    content = build_control(c[1], S, mode)
+  else:
+    content = _textval(c, S, mode)
+  tk = {k: t[k] for k in ('css_classes', 'name') if k in t}
+  if 'css_classes' in tk:
+    tk['css_classes'] = list(tk['css_classes'])
+  return C.Tab(label=lab, content=content, **tk)
 
 
 def build_control(d, S, mode):
@@ -683,25 +804,7 @@ def build_control(d, S, mode):
   if name == 'Tooltip':
     return C.Tooltip(content=_textval(a['content'], S, mode), **kw)
   if name == 'TabControl':
-    tabs = []
-    for t in a['tabs']:
-      lab = (_textval(t['label'][1], S, mode) if t['label'][0] == 'str'
-             else build_control(t['label'], S, mode))
-      c = t['content']
-      if c[0] == 'value':
-        content = build(c[1], S, mode)
-        # pg.Html.write() *calls* a callable (documented writable type), so a
-        # functor object (also behind a pg.Ref, which attribute access
-        # dereferences) is not a tab content that would be rendered.
-        if (not isinstance(content, pg.Symbolic) or callable(content)
-            or isinstance(content, pg.Ref)):
-          content = pg.Dict(v=content)
-      elif c[0] == 'control':
-        content = build_control(c[1], S, mode)
-      else:
-        content = Html(c[1])
-      tk = {k: t[k] for k in ('css_classes', 'name') if k in t}
-      tabs.append(C.Tab(label=lab, content=content, **tk))
+    tabs = [build_tab(t, S, mode) for t in a['tabs']]
     return C.TabControl(tabs=tabs, **kw)
   if name == 'ProgressBar':
     return C.ProgressBar(
@@ -1052,12 +1155,13 @@ class TreeSubject(Subject):
     exc = o.get('exclude_keys')
     return (inc[1:] if inc else None, exc[1:] if exc else [])
 
-  def render(self, mode, variant=None):
+  def render(self, mode, variant=None, value=None):
     S, o = self.S, self.opts
     if variant is not None:
       o = {k: v for k, v in o.items() if k != 'child_config'}
       o['key_style'] = variant
-    value = build(self.desc, S, mode)
+    if value is None:
+      value = build(self.desc, S, mode)
     kw = build_opts(o, S, mode)
     before = snapshot(value)
     text = render_tree(self.ctx, value, o, kw)
@@ -1113,8 +1217,9 @@ class ControlSubject(Subject):
   def case(self):
     return {'control': self.desc, 'how': self.how}
 
-  def render(self, mode, variant=None):
-    ctrl = build_control(self.desc, self.S, mode)
+  def render(self, mode, variant=None, ctrl=None):
+    if ctrl is None:
+      ctrl = build_control(self.desc, self.S, mode)
     how, co = self.how
     kw = {} if variant is None else {'key_style': variant}
     before = snapshot(ctrl)
@@ -1240,6 +1345,701 @@ def gen_api(rng, S, depth=0):
 
 
 # ----------------------------------------------------------------------------
+# Histories: control updates interleaved with renderings of the same texts.
+#
+# A history owns live objects (1-2 interactive controls, values built on first
+# use, shared pg.Html objects) and 4-9 steps: render a live control, render a
+# live value under a new option set, call one public update method of a
+# control (under HtmlControl.track_scripts()), or call Html.escape directly in
+# text / JavaScript-string mode.  New payload slots repeat the text of an
+# earlier slot with probability 1/2, so one text passes through updates and
+# renderings in both orders.  The history runs in two worlds, step by step:
+# all payloads hostile / all payloads twin.  Per step the two results are
+# compared: documents by the oracle of the single renderings; scripts by
+# `monitors/jscheck.py` (same executed code, every literal equal to the twin's
+# literal with the payloads substituted, HTML carried by a literal held to the
+# document oracle).  A finding is re-checked on new objects built from the
+# reference description with texts the process has never seen: if it persists
+# it is attributed as a single rendering / by the update method, otherwise the
+# mechanism is `history:<render|update>-after-<update|render|none>` (class of
+# the failing step, class of the earlier steps that used one of its texts).
+# ----------------------------------------------------------------------------
+
+HISTORY_HOWS = ['method', 'fn', 'to_html']
+HOSTILE_CLASS_KINDS = ('class-name', 'doc')
+_SLOT_TAGS = ('slot', 's', 'r', 'text')
+_CONTROL_ID = re.compile(r'control-\d+')
+_UPDATE_DATA_ARGS = ('text', 'tooltip', 'link')
+
+
+def slot_ids(x, out=None):
+  """Slot numbers referred to anywhere in a description."""
+  out = set() if out is None else out
+  if isinstance(x, list):
+    if (len(x) >= 2 and x[0] in _SLOT_TAGS and isinstance(x[1], int)
+        and not isinstance(x[1], bool)):
+      out.add(x[1])
+      x = x[2:]
+    for y in x:
+      slot_ids(y, out)
+  elif isinstance(x, dict):
+    for v in x.values():
+      slot_ids(v, out)
+  return out
+
+
+def force_interactive(d):
+  """Makes every Label/Badge/Tooltip/LabelGroup of a description interactive
+  (TabControl and ProgressBar always are); a non-interactive control refuses
+  updates by contract."""
+  name, a = d
+  if name in ('Label', 'Badge', 'Tooltip', 'LabelGroup'):
+    a['interactive'] = True
+  if name == 'LabelGroup' and 'name' in a:
+    force_interactive(a['name'])
+  for x in a.get('labels', []):
+    force_interactive(x)
+  for t in a.get('tabs', []):
+    force_interactive_tab(t)
+  return d
+
+
+def force_interactive_tab(t):
+  if t['label'][0] != 'str':
+    force_interactive(t['label'])
+  if t['content'][0] == 'control':
+    force_interactive(t['content'][1])
+  return t
+
+
+def control_targets(d, path, out):
+  """(path, class) of every control with update methods inside `d`."""
+  name, a = d
+  if name in ('Label', 'Badge', 'Tooltip', 'TabControl', 'ProgressBar'):
+    out.append((path, 'Label' if name == 'Badge' else name))
+  if name == 'LabelGroup':
+    if 'name' in a:
+      control_targets(a['name'], path + ['name'], out)
+    for j, x in enumerate(a['labels']):
+      control_targets(x, path + ['labels', j], out)
+  elif name == 'TabControl':
+    for j, t in enumerate(a['tabs']):
+      if t['label'][0] != 'str':
+        control_targets(t['label'], path + ['tabs', j, 'label'], out)
+      if t['content'][0] == 'control':
+        control_targets(t['content'][1], path + ['tabs', j, 'content'], out)
+  elif name == 'ProgressBar':
+    for j in range(len(a['subprogresses'])):
+      out.append((path + ['subprogresses', j], 'SubProgress'))
+  return out
+
+
+def resolve_desc(d, path):
+  i = 0
+  while i < len(path):
+    k = path[i]
+    if k == 'name':
+      d, i = d[1]['name'], i + 1
+    elif k == 'labels':
+      d, i = d[1]['labels'][path[i + 1]], i + 2
+    elif k == 'tabs':
+      t = d[1]['tabs'][path[i + 1]]
+      d, i = (t['label'] if path[i + 2] == 'label' else t['content'][1]), i + 3
+    elif k == 'subprogresses':
+      d, i = d[1]['subprogresses'][path[i + 1]], i + 2
+    else:
+      raise ValueError(path)
+  return d
+
+
+def resolve_live(c, path):
+  i = 0
+  while i < len(path):
+    k = path[i]
+    if k == 'name':
+      c, i = c.name, i + 1
+    elif k == 'labels':
+      c, i = c.labels[path[i + 1]], i + 2
+    elif k == 'tabs':
+      t = c.tabs[path[i + 1]]
+      c, i = (t.label if path[i + 2] == 'label' else t.content), i + 3
+    elif k == 'subprogresses':
+      c, i = c.subprogresses[path[i + 1]], i + 2
+    else:
+      raise ValueError(path)
+  return c
+
+
+def tab_index(tabs, which):
+  """`TabControl.indexof` on a description (-1: not found)."""
+  if isinstance(which, list):
+    for w in which:
+      j = tab_index(tabs, w)
+      if j != -1:
+        return j
+    return -1
+  n = len(tabs)
+  if isinstance(which, int):
+    if which >= n:
+      return n - 1
+    if which < -n:
+      return -1
+    return which + n if which < 0 else which
+  for j, t in enumerate(tabs):
+    if t.get('name') == which:
+      return j
+  return -1
+
+
+def gen_update(rng, S, descs):
+  """One call of a public update method of one live control (or None)."""
+  cands = []
+  for ci, d in enumerate(descs):
+    for path, cls in control_targets(d, [], []):
+      cands.append((ci, path, cls))
+  if not cands:
+    return None
+  ci, path, cls = rng.choice(cands)
+  t = resolve_desc(descs[ci], path)
+  if cls == 'Label' and rng.random() < 0.06:
+    # Caller-supplied CSS (markup by contract): the style registry of a live
+    # control grows between renderings.
+    return ['update', ci, path, 'HtmlControl.add_style',
+            {'css': rng.choice(['.n1 { color: red; }', '.zz > b { margin: 0; }'])}]
+  if cls == 'Label':
+    a = t[1]
+    data = ['text'] + [f for f in ('tooltip', 'link') if f in a]
+    picked = ([rng.choice(data)] if rng.random() < 0.7
+              else rng.sample(data, rng.randint(1, len(data))))
+    args = {}
+    for f in sorted(picked):
+      if f == 'text':
+        args[f] = _textref(rng, S, 'Label.text')
+      elif f == 'tooltip':
+        args[f] = _textref(rng, S, 'Tooltip.content')
+      else:
+        args[f] = (['slot', S.new(rng, 'Label.link')] if rng.random() < 0.7
+                   else ['plain', 'https://example.com/b?x=1&y=2'])
+    if rng.random() < 0.2:
+      args['styles'] = rng.choice([{'color': 'blue'},
+                                   {'font_weight': 'bold', 'width': '40%'}])
+    if rng.random() < 0.2:
+      args['add_class'] = ['n1']
+    if rng.random() < 0.15:
+      args['remove_class'] = [rng.choice(list(a.get('css_classes', []))
+                                         + ['zz'])]
+    return ['update', ci, path, 'Label.update', args]
+  if cls == 'Tooltip':
+    return ['update', ci, path, 'Tooltip.update',
+            {'content': _textref(rng, S, 'Tooltip.content')}]
+  if cls == 'TabControl':
+    tabs = t[1]['tabs']
+    n = len(tabs)
+    named = any(x.get('name') == 'tabname' for x in tabs)
+
+    def which(lists):
+      if named and rng.random() < 0.35:
+        return (['nope', 'tabname'] if lists and rng.random() < 0.5
+                else 'tabname')
+      return rng.randrange(-n, n + 2)
+
+    def tab():
+      return force_interactive_tab(gen_tab(rng, S, 1))
+
+    op = rng.choice(['append', 'append', 'extend']
+                    + (['insert', 'insert', 'select'] if n else []))
+    if op == 'append':
+      args = {'tab': tab()}
+    elif op == 'extend':
+      args = {'tabs': [tab() for _ in range(rng.randint(1, 2))]}
+    elif op == 'insert':
+      args = {'at': which(False), 'tab': tab()}
+    else:
+      args = {'which': which(True)}
+    return ['update', ci, path, 'TabControl.' + op, args]
+  if cls == 'ProgressBar':
+    args = {}
+    if t[1]['total'] is None and rng.random() < 0.7:
+      args['total'] = rng.choice([10, 20])
+    return ['update', ci, path, 'ProgressBar.update', args]
+  # SubProgress: t = [name ref, value]
+  siblings = resolve_desc(descs[ci], path[:-2])[1]['subprogresses']
+  me = (t[0][0], S.textids[t[0][1]] if t[0][0] == 'slot' else t[0][1])
+  same = [x for x in siblings
+          if (x[0][0], S.textids[x[0][1]] if x[0][0] == 'slot' else x[0][1]) == me]
+  args = {}
+  if len(same) == 1 and rng.random() < 0.35:
+    args['by_name'] = True          # looked up with ProgressBar.__getitem__
+  if rng.random() < 0.5:
+    args['value'] = rng.randint(0, 8)
+    return ['update', ci, path, 'SubProgress.update', args]
+  args['delta'] = rng.randint(1, 3)
+  return ['update', ci, path, 'SubProgress.increment', args]
+
+
+def apply_model(descs, step):
+  """Applies an update step to the reference descriptions."""
+  if step[0] != 'update':
+    return
+  _, ci, path, op, args = step
+  args = copy.deepcopy(args)
+  t = resolve_desc(descs[ci], path)
+  if op == 'Label.update':
+    a = t[1]
+    for f in _UPDATE_DATA_ARGS:
+      if f in args:
+        a[f] = args[f]
+    if 'styles' in args:
+      a['styles'] = dict(a.get('styles', {}), **args['styles'])
+    if 'add_class' in args or 'remove_class' in args:
+      cl = list(a.get('css_classes', [])) + args.get('add_class', [])
+      for x in args.get('remove_class', []):
+        if x in cl:
+          cl.remove(x)
+      a['css_classes'] = cl
+  elif op == 'Tooltip.update':
+    t[1]['content'] = args['content']
+  elif op == 'TabControl.append':
+    t[1]['tabs'].append(args['tab'])
+  elif op == 'TabControl.extend':
+    t[1]['tabs'].extend(args['tabs'])
+  elif op == 'TabControl.insert':
+    t[1]['tabs'].insert(tab_index(t[1]['tabs'], args['at']), args['tab'])
+  elif op == 'TabControl.select':
+    t[1]['selected'] = tab_index(t[1]['tabs'], args['which'])
+  elif op == 'ProgressBar.update':
+    if 'total' in args:
+      t[1]['total'] = args['total']
+  elif op == 'SubProgress.update':
+    t[1] = args['value']
+  elif op == 'SubProgress.increment':
+    t[1] += args['delta']
+  elif op != 'HtmlControl.add_style':
+    raise ValueError(op)
+
+
+def gen_history(rng, S):
+  """Returns (control descriptions, value records, steps), all JSON-able."""
+  S.share_p = 0.5
+  S.html_objs = {}
+  controls = [force_interactive(gen_control(rng, S))
+              for _ in range(rng.randint(1, 2))]
+  model = copy.deepcopy(controls)
+  values, gens, steps = [], [], []
+  for ci in range(len(controls)):
+    if rng.random() < 0.75:
+      steps.append(['render-control', ci, rng.choice(HISTORY_HOWS),
+                    rng.random() < 0.7])
+  n = rng.randint(4, 9)
+  while len(steps) < n:
+    r = rng.random()
+    if r < 0.2:
+      steps.append(['render-control', rng.randrange(len(controls)),
+                    rng.choice(HISTORY_HOWS), rng.random() < 0.7])
+    elif r < 0.44:
+      if values and rng.random() < 0.4:
+        vi = rng.randrange(len(values))
+      else:
+        g = Gen(rng, S)
+        desc = g.value(0, [], plain_ok=True)
+        values.append({'desc': desc, 'class_kinds': sorted(g.class_kinds)})
+        gens.append(g)
+        vi = len(values) - 1
+      steps.append(['render-value', vi,
+                    gen_opts(rng, S, values[vi]['desc'], gens[vi])])
+    elif r < 0.9:
+      u = gen_update(rng, S, model)
+      if u is not None:
+        steps.append(u)
+        apply_model(model, u)
+    else:
+      form = rng.choice(['text', 'js'])
+      steps.append(['escape', S.new(rng, 'Html.escape@' + form,
+                                    pad=rng.choice([0, 0, 10])), form,
+                    rng.random() < 0.3])
+  return controls, values, steps
+
+
+class World:
+  """The live objects of a history with the payload kinds in `mode` hostile."""
+
+  def __init__(self, ctx, S, mode, descs):
+    self.S, self.mode = S, mode
+    ctx.label = 'history:build-control'
+    self.controls = [build_control(d, S, mode) for d in descs]
+    ctx.label = None
+    self.values = {}
+
+
+def exec_step(ctx, w, step, descs, values, args_S=None):
+  """Runs `step` in world `w`.  Returns (document, expectations, changed) for a
+  rendering, a list of scripts for an update, (output, text) for an escape.
+  `args_S`: slots that give the texts of the arguments of an update (default:
+  those of the world)."""
+  S, mode = w.S, w.mode
+  SA = args_S or S
+  kind = step[0]
+  try:
+    if kind == 'render-control':
+      _, ci, how, co = step
+      subj = ControlSubject(ctx, S, descs[ci], (how, co), ())
+      return subj.render(mode, ctrl=w.controls[ci])
+    if kind == 'render-value':
+      _, vi, opts = step
+      ctx.label = 'history:build-value'
+      if vi not in w.values:
+        w.values[vi] = build(values[vi]['desc'], S, mode)
+      subj = TreeSubject(ctx, S, values[vi]['desc'], opts, ())
+      return subj.render(mode, value=w.values[vi])
+    if kind == 'escape':
+      _, slot, form, as_callable = step
+      t = S.text(slot, mode)
+      ctx.label = 'history:Html.escape/' + form
+      arg = (lambda: t) if as_callable else t
+      if form == 'js':
+        return Html.escape(arg, javascript_str=True), t
+      return Html.escape(arg), t
+    _, ci, path, op, args = step
+    ctx.label = 'history:' + op
+    target = resolve_live(w.controls[ci], path)
+    with C.HtmlControl.track_scripts() as scripts:
+      if op == 'Label.update':
+        kw = {f: _textval(args[f], SA, mode) for f in _UPDATE_DATA_ARGS
+              if f in args}
+        for f in ('styles', 'add_class', 'remove_class'):
+          if f in args:
+            kw[f] = copy.deepcopy(args[f])
+        target.update(**kw)
+      elif op == 'Tooltip.update':
+        target.update(_textval(args['content'], SA, mode))
+      elif op == 'TabControl.append':
+        target.append(build_tab(args['tab'], SA, mode))
+      elif op == 'TabControl.extend':
+        target.extend([build_tab(t, SA, mode) for t in args['tabs']])
+      elif op == 'TabControl.insert':
+        target.insert(args['at'], build_tab(args['tab'], SA, mode))
+      elif op == 'TabControl.select':
+        target.select(copy.deepcopy(args['which']))
+      elif op == 'HtmlControl.add_style':
+        target.add_style(args['css'])
+      elif op == 'ProgressBar.update':
+        target.update(**{k: args[k] for k in ('total',) if k in args})
+      elif op in ('SubProgress.update', 'SubProgress.increment'):
+        if args.get('by_name'):
+          bar = resolve_live(w.controls[ci], path[:-2])
+          name = resolve_desc(descs[ci], path)[0]
+          target = bar[_textval(name, S, mode)]
+        if op == 'SubProgress.update':
+          target.update(args['value'])
+        else:
+          target.increment(args['delta'])
+      else:
+        raise ValueError(op)
+    return list(scripts)
+  finally:
+    ctx.label = None
+
+
+def html_findings(ctx, t_out, h_out, excludes):
+  """The oracle of one rendering: [(clause, detail)]."""
+  c = ctx.counters
+  (t_text, t_exp, t_changed), (h_text, h_exp, h_changed) = t_out, h_out
+  out = []
+  rt, rh = HC.check(t_text), HC.check(h_text)
+  c['strict_parses'] += 2
+  c['unchanged_value_checks'] += 2
+  if t_changed or h_changed:
+    out.append(('value-modified', t_changed or h_changed))
+  if rt.errors:
+    out.append(('malformed', rt.describe() + '\n' + t_text[:1200]))
+  c['twin_comparisons'] += 1
+  c['canary_checks'] += 1
+  v = judge(rh, rt)
+  if v is not None:
+    out.append((v[0], v[1] + '\nhostile rendering:\n' + h_text[:1500]))
+    return out
+  c['hostile_renderings_structurally_clean'] += 1
+
+  def absent(r, exp):
+    hay = r.text(exclude_classes=excludes)
+    c['presence_tokens_checked'] += len(exp)
+    return {j for j, (_, accepted) in enumerate(exp)
+            if not any(a in hay for a in accepted)}
+
+  mt = absent(rt, t_exp)
+  mh = absent(rh, h_exp) - mt
+  for exp, miss, which, text in ((t_exp, mt, 'benign', t_text),
+                                 (h_exp, mh, 'hostile', h_text)):
+    if miss:
+      what, accepted = exp[min(miss)]
+      out.append(('absent', f'{what} {accepted[-1]!r} is not in the character '
+                  f'data of the {which} rendering\n{text[:1500]}'))
+      break
+  return out
+
+
+def _pairs(slots, hostile):
+  """(twin text, hostile text) of every slot, longest first."""
+  ps = {(S.text(i, frozenset()), S.text(i, hostile))
+        for S in slots for i in range(len(S.items))}
+  return sorted(ps, key=lambda p: (-len(p[0]), p))
+
+
+def _substituted(s, pairs):
+  for tw, ho in pairs:
+    s = s.replace(tw, ho)
+  return s
+
+
+def script_findings(ctx, S, hostile, step, t_scripts, h_scripts, args_S=None):
+  """The oracle of the scripts of one update call: [(clause, detail)]."""
+  SA = args_S or S
+  c = ctx.counters
+  out = []
+  if len(t_scripts) != len(h_scripts):
+    return [('script-breakout', f'{len(h_scripts)} scripts with hostile texts, '
+             f'{len(t_scripts)} with benign texts')]
+  pairs = _pairs([S, SA] if SA is not S else [S], hostile)
+  args = step[4]
+  tabs = ([args['tab']] if 'tab' in args else list(args.get('tabs', [])))
+  exps = []
+  for mode in (frozenset(), hostile):
+    e = []
+    if tabs:
+      control_expectations(['TabControl', {'tabs': tabs}], SA, mode, e)
+    exps.append(e)
+  t_frag, h_frag = [], []
+  skipped = False
+  for ts, hs in zip(t_scripts, h_scripts):
+    st, sh = JS.scan(ts), JS.scan(hs)
+    c['update_scripts_checked'] += 1
+    if st.errors:
+      out.append(('script-malformed', st.describe() + '\n' + ts[:800]))
+      skipped = True
+      continue
+    if sh.errors or sh.skeleton != st.skeleton:
+      out.append(('script-breakout',
+                  (sh.describe() or 'the code outside the string literals '
+                   f'differs: {sh.skeleton!r} vs benign {st.skeleton!r}')
+                  + '\nscript:\n' + hs[:1200]))
+      skipped = True
+      continue
+    for lt, lh in zip(st.literals, sh.literals):
+      c['script_literals_checked'] += 1
+      if lt.role == 'html':
+        c['script_html_fragments_checked'] += 1
+        t_frag.append(lt.value)
+        h_frag.append(lh.value)
+        continue
+      want = _substituted(_CONTROL_ID.sub('control-N', lt.value), pairs)
+      got = _CONTROL_ID.sub('control-N', lh.value)
+      if got != want:
+        out.append(('script-text-differs',
+                    f'the {lt.role} literal stands for {got!r}, expected '
+                    f'{want!r}\nscript:\n{hs[:1200]}'))
+  if skipped:
+    exps = [[], []]    # no presence claim on an incomplete set of fragments
+  if t_frag:
+    # The HTML a script inserts is a rendering like any other.
+    out.extend(html_findings(ctx, ('\n'.join(t_frag), exps[0], None),
+                             ('\n'.join(h_frag), exps[1], None), ()))
+  seen, uniq = set(), []
+  for clause, detail in out:
+    if clause not in seen:
+      seen.add(clause)
+      uniq.append((clause, detail))
+  return uniq
+
+
+def escape_findings(ctx, step, t_out, h_out):
+  c = ctx.counters
+  form = step[2]
+  (t_res, t_text), (h_res, h_text) = t_out, h_out
+  c['direct_escape_checks'] += 1
+  if form == 'text':
+    wrap = lambda r, t: (f'<span>{r}</span>', [('Html.escape@text', [t])], None)
+    out = html_findings(ctx, wrap(t_res, t_text), wrap(h_res, h_text), ())
+    if not out and HC.check(f'<span>{h_res}</span>').text() != h_text:
+      out.append(('absent', f'Html.escape({h_text!r}) = {h_res!r} does not '
+                  'stand for the text'))
+    return out
+  st, sh = JS.scan(f'x = "{t_res}";'), JS.scan(f'x = "{h_res}";')
+  if st.errors:
+    return [('script-malformed', st.describe())]
+  if sh.errors or sh.skeleton != st.skeleton:
+    return [('script-breakout', f'Html.escape({h_text!r}, javascript_str=True)'
+             f' = {h_res!r} does not stay inside a string literal')]
+  if sh.literals[0].value != h_text:
+    return [('script-text-differs', f'Html.escape({h_text!r}, javascript_str='
+             f'True) = {h_res!r} stands for {sh.literals[0].value!r}')]
+  return []
+
+
+def step_findings(ctx, S, hostile, step, t_out, h_out, args_S=None):
+  if step[0] == 'render-control':
+    return html_findings(ctx, t_out, h_out, ())
+  if step[0] == 'render-value':
+    return html_findings(ctx, t_out, h_out, ('tooltip',))
+  if step[0] == 'escape':
+    return escape_findings(ctx, step, t_out, h_out)
+  return script_findings(ctx, S, hostile, step, t_out, h_out, args_S)
+
+
+def fresh_findings(ctx, S2, hostile, step, descs, values):
+  """The same step on new objects built from the reference descriptions, with
+  the texts of `S2` (never used in this process).  An update needs a control
+  that has been rendered: its arguments take their texts from a second fresh
+  set, so that the rendering and the update have no text in common."""
+  outs = []
+  SA = S2.refreshed(S2.prefix + 'a') if step[0] == 'update' else None
+  for mode in (frozenset(), hostile):
+    if step[0] == 'update':
+      w = World(ctx, S2, mode, [descs[step[1]]])
+      ctx.label = 'history:render-control'
+      w.controls[0].to_html()
+      ctx.label = None
+      st = ['update', 0] + step[2:]
+      outs.append(exec_step(ctx, w, st, [descs[step[1]]], values, SA))
+    elif step[0] == 'render-control':
+      w = World(ctx, S2, mode, [descs[step[1]]])
+      outs.append(exec_step(ctx, w, [step[0], 0] + step[2:],
+                            [descs[step[1]]], values))
+    else:
+      w = World(ctx, S2, mode, [])
+      outs.append(exec_step(ctx, w, step, descs, values))
+  ctx.counters['history_rechecks'] += 1
+  return step_findings(ctx, S2, hostile, step, outs[0], outs[1], SA)
+
+
+def violation_count(ctx):
+  return sum(v['count'] for v in ctx.violations.values())
+
+
+def run_history(ctx):
+  rng, c = ctx.rng, ctx.counters
+  S = Slots(prefix=f'h{ctx.index}')
+  controls, values, steps = gen_history(rng, S)
+  hostile = frozenset(S.kinds() | set(HOSTILE_CLASS_KINDS))
+  case = {'controls': controls, 'values': values, 'steps': steps,
+          'payloads': {f'slot{i}:{k}:{tid}': t
+                       for i, (k, tid, t) in enumerate(S.items)}}
+  for k, tid, _ in S.items:
+    c['slots:' + k] += 1
+    c['template:' + tid] += 1
+  cur = copy.deepcopy(controls)
+  worlds = [World(ctx, S, frozenset(), cur), World(ctx, S, hostile, cur)]
+  used = []            # per executed step: (class, text ids)
+  nfresh = itertools.count()
+  scripts_before = c['update_scripts_checked']
+  renders = shared = 0
+  for j, step in enumerate(steps):
+    kind = step[0]
+    pre = copy.deepcopy(cur)
+    outs = [exec_step(ctx, w, step, cur, values) for w in worlds]
+    apply_model(cur, step)
+    c['history_steps'] += 1
+    c['step:' + (step[3] if kind == 'update' else kind)] += 1
+    finds = step_findings(ctx, S, hostile, step, outs[0], outs[1])
+    cls = ('update' if kind == 'update' or (kind == 'escape' and step[2] == 'js')
+           else 'render')
+    if kind == 'render-control':
+      ids = slot_ids(cur[step[1]])
+      renders += 1
+    elif kind == 'render-value':
+      ids = slot_ids(values[step[1]]) | slot_ids(step[2])
+      renders += 1
+    elif kind == 'escape':
+      ids = {step[1]}
+    else:
+      ids = slot_ids(step[4])
+      if step[3].startswith(('ProgressBar', 'SubProgress')):
+        ids |= slot_ids(resolve_desc(cur[step[1]],
+                                     step[2] if step[3].startswith('Progress')
+                                     else step[2][:-2]))
+      c['update_calls'] += 1
+      c['update_calls_with_scripts'] += bool(outs[1])
+    tids = {S.textids[i] for i in ids}
+    before = {k for k, t in used if t & tids}
+    # Class of the earlier steps that used one of the texts of this step: the
+    # other class first (the text changed its kind of position).
+    other = 'render' if cls == 'update' else 'update'
+    prior = other if other in before else cls if cls in before else 'none'
+    if prior != 'none':
+      c[f'{cls}_after_{prior}_shared_text'] += 1
+      shared += cls != prior
+    used.append((cls, tids))
+    if not finds:
+      continue
+    c['history_steps_with_findings'] += 1
+    trail = f'\nstep #{j} {step!r} after {steps[:j]!r}'[:1500]
+    S2 = S.refreshed(f'h{ctx.index}f{next(nfresh)}')
+    again = {cl for cl, _ in fresh_findings(ctx, S2, hostile, step, pre, values)}
+    stateless = [(cl, d) for cl, d in finds if cl in again]
+    for clause, detail in finds:
+      if clause not in again:
+        ctx.violation(clause, f'history:{cls}-after-{prior}',
+                      detail + '\nnot reproduced on new objects with texts '
+                      'the process has not seen before' + trail, case)
+    if not stateless:
+      continue
+    # Not a matter of history: attribute like a single rendering / by method.
+    if kind in ('render-control', 'render-value'):
+      S3 = S.refreshed(f'h{ctx.index}f{next(nfresh)}')
+      n0 = violation_count(ctx)
+      if kind == 'render-control':
+        d = pre[step[1]]
+        subj = ControlSubject(ctx, S3, d, (step[2], step[3]),
+                              control_class_kinds(d, set()))
+      else:
+        v = values[step[1]]
+        subj = TreeSubject(ctx, S3, v['desc'], step[2], set(v['class_kinds']))
+      evaluate(ctx, subj)
+      if violation_count(ctx) == n0:
+        for clause, detail in stateless:
+          ctx.violation(clause, f'render:{subj.name}/in-history',
+                        detail + trail, case)
+    elif kind == 'escape':
+      for clause, detail in stateless:
+        ctx.violation(clause, 'Html.escape@' + step[2], detail + trail, case)
+    else:
+      op, args = step[3], step[4]
+      data = [f for f in _UPDATE_DATA_ARGS if f in args]
+      tabs = [args['tab']] if 'tab' in args else list(args.get('tabs', []))
+      if tabs and any(not cl.startswith('script-') for cl, _ in stateless):
+        # The HTML of a new tab: the same positions as in a rendered control.
+        S3 = S.refreshed(f'h{ctx.index}f{next(nfresh)}')
+        n0 = violation_count(ctx)
+        d = ['TabControl', {'tabs': tabs}]
+        evaluate(ctx, ControlSubject(ctx, S3, d, ('method', True),
+                                     control_class_kinds(d, set())))
+        if violation_count(ctx) != n0:
+          stateless = [x for x in stateless if x[0].startswith('script-')]
+      for clause, detail in stateless:
+        guilty = []
+        if op == 'Label.update' and len(data) > 1:
+          for f in data:
+            one = step[:4] + [{k: v for k, v in args.items()
+                               if k == f or k not in data}]
+            S4 = S.refreshed(f'h{ctx.index}f{next(nfresh)}')
+            if clause in {cl for cl, _ in fresh_findings(
+                ctx, S4, hostile, one, pre, values)}:
+              guilty.append(f)
+        mech = (f'{op}({"+".join(guilty or data)})' if op == 'Label.update'
+                else 'SubProgress.update' if op.startswith('SubProgress')
+                else op)
+        ctx.violation(clause, mech, detail + trail, case)
+  c['history_renderings_compared'] += renders
+  scripts = c['update_scripts_checked'] - scripts_before
+  if scripts and renders >= 2 and shared:
+    ctx.mark_nontrivial(shape([controls, values, steps], S))
+  ctx.seen('descriptions', shape([controls, [s[:4] for s in steps]], S))
+  ctx.seen('payload_kind_sets', sorted(S.kinds()))
+  ctx.seen('history_step_sequences',
+           [s[3] if s[0] == 'update' else s[0] for s in steps])
+  return case, S
+
+
+# ----------------------------------------------------------------------------
 # Cases.
 # ----------------------------------------------------------------------------
 
@@ -1252,7 +2052,13 @@ def run_case(ctx, i):
   c = ctx.counters
   S = Slots()
   r = rng.random()
-  if r < 0.6:
+  if r >= 0.86:
+    c['history_cases'] += 1
+    case, S = run_history(ctx)
+    if i < 4:
+      ctx.sample({'subject': 'history', 'case': case})
+    return
+  if r < 0.52:
     c['tree_cases'] += 1
     g = Gen(rng, S)
     desc = g.value(0, [], plain_ok=True)
@@ -1263,7 +2069,7 @@ def run_case(ctx, i):
     for k in opts:
       c['opt:' + k] += 1
     nopts = len([k for k in opts if k not in ('entry', 'content_only')])
-  elif r < 0.88:
+  elif r < 0.76:
     c['control_cases'] += 1
     desc = gen_control(rng, S)
     how = (rng.choice(['method', 'fn', 'to_html', 'member']),
